@@ -6,7 +6,7 @@ core.setup_repo_path()
 
 from src.extensions.extension import Extension  # noqa: E402
 from src.extensions.messages import (MultipleAlignmentResultRowsMessage, InitialAlignmentMessage,  # noqa: E402
-                                     AlignmentResultRowMessage)
+                                     AlignmentResultRowMessage, CorrelationResultMessage)
 
 EVENTS = []
 
@@ -48,6 +48,16 @@ class Seeds(Extension):
             allh = None
         EVENTS.append(('seeds', int(d.query.moleculeId), int(d.query.shift), int(d.reference.moleculeId), bool(d.reverseStrand),
                        [(float(p.position), float(p.score), float(p.height)) for p in d.peaks], allh))
+
+
+class Refined(Extension):
+    """the secondary (refined) correlation of every seed: its peaks converted to base pairs, as the aligner will use them"""
+    messageType = CorrelationResultMessage
+
+    def handle(self, message):
+        r = message.refinedAlignment
+        EVENTS.append(('refined', int(r.query.moleculeId), int(r.query.shift), int(r.reference.moleculeId), bool(r.reverseStrand),
+                       message.index, [(float(p.position), float(p.score)) for p in r.peaks]))
 
 
 class Rows(Extension):
